@@ -3,9 +3,10 @@ CONSTANT MaxNodes = 7
 CONSTANT MaxLeaves = 4
 CONSTANT MaxList = 3
 CONSTANT MaxSingles = 3
+CONSTANT AccReuse = FALSE
 CONSTANT SymLeaves = 3
 CONSTANT Design = "reference"
-CONSTANT Domains = {"singles", "lists", "labels", "symbols", "structure"}
+CONSTANT Domains = {"keywords", "history", "singles", "lists", "labels", "symbols", "structure"}
 INVARIANT DomainWithinProperty
 INVARIANT RoundTripHolds
 CHECK_DEADLOCK FALSE
